@@ -285,6 +285,10 @@ func execEbnfOp(op *concOp, reference bool) string {
 // no constructor, hence no fresh instance): later results must equal it.
 var genMemo = map[string]string{}
 
+// refMemo remembers isolated reference results across the runs of a worker process.
+var refMemo = map[string]string{}
+var refMemoHits int64
+
 var parserOpKinds = []string{"ParseString", "ParseBytes", "Parse", "ParseFromLexer", "Parser.Lex", "Parser.String", "PostError", "ParseString", "ParseString", "ParseFailingReader", "ParseTrace"}
 var defOpKinds = []string{"Def.Lex", "Def.LexString", "Def.LexBytes", "Def.Symbols", "Def.Rules", "Def.MarshalJSON", "SymbolsByRune", "Def.LexString", "Def.LexString", "Def.LexFailingReader", "MakeSymbolTable"}
 
@@ -689,7 +693,30 @@ func runConcurrency(rc *RunCtx) *Violation {
 			refs[op.key] = ref
 			continue
 		}
-		refs[op.key] = exec(&cp, true)
+		// the isolated result of a call is a function of (grammar, build variant, operation, input);
+		// remember it across runs unless the input carries this run's private delimiters
+		memoKey := ""
+		if !strings.HasPrefix(op.kind, "ebnf.") && !strings.Contains(op.input, delims[0][:8]) {
+			owner := ""
+			if strings.HasPrefix(op.kind, "Def.") || op.kind == "SymbolsByRune" || op.kind == "MakeSymbolTable" {
+				owner = "def:" + defs[op.di].name
+			} else {
+				owner = parsers[op.pi].w.name + "|" + parsers[op.pi].variant
+			}
+			memoKey = owner + "|" + cp.kind + "|" + op.input + "|" + op.prefix
+		}
+		if memoKey != "" {
+			if ref, ok := refMemo[memoKey]; ok {
+				refs[op.key] = ref
+				refMemoHits++
+				continue
+			}
+		}
+		ref := exec(&cp, true)
+		if memoKey != "" && len(refMemo) < 60000 {
+			refMemo[memoKey] = ref
+		}
+		refs[op.key] = ref
 	}
 	for _, op := range readbackRefs {
 		refs[op.key] = exec(op, true)
